@@ -156,14 +156,24 @@ func c16WorkerMain() {
 		os.Exit(4)
 	}
 	f := strings.Fields(in.Text())
-	if len(f) != 4 {
+	if len(f) != 4 && !(len(f) == 7 && f[0] == "tpq") {
 		os.Exit(4)
+	}
+	if f[0] == "tpq" {
+		c16SeqWorker(f)
+		return
 	}
 	ms, _ := strconv.ParseInt(f[3], 10, 64)
 	dir := bootEngine()
 	defer os.RemoveAll(dir)
-	index := "c16proto"
 	t0 := time.Now().UnixMilli()
+	index, status := c16Post(f, ms)
+	c16Readback(index, status, t0)
+}
+
+// c16Post: one event through the handler of protocol f[1] in the form f[2]; returns the index it went to and the status
+func c16Post(f []string, ms int64) (string, int) {
+	index := "c16proto"
 	status := 0
 	switch f[1] {
 	case "esbulk":
@@ -243,6 +253,10 @@ func c16WorkerMain() {
 		splunk.ProcessSplunkHecIngestRequest(ctx, 0)
 		status = ctx.Response.StatusCode()
 	}
+	return index, status
+}
+
+func c16Readback(index string, status int, t0 int64) {
 	t1 := time.Now().UnixMilli()
 	if status >= 300 {
 		fmt.Printf("RESULT rejected\n")
